@@ -141,6 +141,11 @@ def step(run, job):
 
 def check(run, replay=None):
     if replay:
+        c = json.load(open(replay))
+        if isinstance(c, dict) and c.get('cmd') in ('searchcut', 'searchcmp', 'searchmates'):
+            run.build()
+            from . import searchreplay
+            return searchreplay.replay_file(run, c)
         print('C13 counterexamples are assignments of abstract node facts and cut points; see the replay file')
         return 1
     run.build()
@@ -165,3 +170,5 @@ def check(run, replay=None):
         run.inconclusive.append('LIM-KIND: a positive answer of limits_exceeded neither clears the running flag nor is a clock-budget cut; no sound contract for nested cuts')
         return
     run.parallel(step, [j + (ck,) for j in jobs])
+    from . import searchreplay
+    searchreplay.confirm_on_real_engine(run, 'cut')
